@@ -18,7 +18,12 @@ import (
 
 func init() { handlers["locks"] = locksHandler }
 
-var repoRoot = "/repo"
+var repoRoot = func() string {
+	if v := os.Getenv("VERIF_REPO"); v != "" {
+		return v
+	}
+	return "/repo"
+}()
 
 func goid() int64 {
 	var buf [64]byte
